@@ -345,63 +345,66 @@ def _tup(x):
 
 
 # ------------------------------------------------------------------------------------------------
-# the function sample: name -> builder(F) of a select list over columns a, b (bigint) and s (string)
+# the function drive: typed call templates (checks/c17_cases.py, read-only; plus C12's own extras sent by the check)
 # ------------------------------------------------------------------------------------------------
 
-def function_sample(F):
-    a, b, s = F.col("a"), F.col("b"), F.col("s")
-    S = {
-        "abs": lambda: [F.abs(a - b)], "coalesce": lambda: [F.coalesce(a, b)], "greatest": lambda: [F.greatest(a, b)],
-        "least": lambda: [F.least(a, b)], "isnull": lambda: [F.isnull(a)], "isnotnull": lambda: [F.isnotnull(a)],
-        "nvl": lambda: [F.nvl(a, b)], "ifnull": lambda: [F.ifnull(a, b)], "nullif": lambda: [F.nullif(a, b)],
-        "nvl2": lambda: [F.nvl2(a, b, F.lit(0))], "when": lambda: [F.when(a > b, a).otherwise(b)],
-        "negative": lambda: [F.negative(a)], "negate": lambda: [F.negate(a)], "signum": lambda: [F.signum(a)],
-        "sign": lambda: [F.sign(a)], "pmod": lambda: [F.pmod(a, F.lit(3))], "floor": lambda: [F.floor(a)],
-        "ceil": lambda: [F.ceil(a)], "ceiling": lambda: [F.ceiling(a)], "pow": lambda: [F.pow(a, F.lit(2))],
-        "power": lambda: [F.power(a, F.lit(2))], "sqrt": lambda: [F.sqrt(F.abs(a))], "exp": lambda: [F.exp(F.lit(0) * a)],
-        "round": lambda: [F.round(a / F.lit(4), 1)], "bround": lambda: [F.bround(a / F.lit(4), 1)],
-        "upper": lambda: [F.upper(s)], "lower": lambda: [F.lower(s)], "length": lambda: [F.length(s)],
-        "char_length": lambda: [F.char_length(s)], "character_length": lambda: [F.character_length(s)],
-        "trim": lambda: [F.trim(F.concat(F.lit(" "), s, F.lit(" ")))], "ltrim": lambda: [F.ltrim(F.concat(F.lit(" "), s))],
-        "rtrim": lambda: [F.rtrim(F.concat(s, F.lit(" ")))], "concat": lambda: [F.concat(s, F.lit("-"), s)],
-        "concat_ws": lambda: [F.concat_ws("-", s, s)], "substring": lambda: [F.substring(F.concat(s, F.lit("yz")), 2, 2)],
-        "substr": lambda: [F.substr(F.concat(s, F.lit("yz")), F.lit(2), F.lit(2))],
-        "left": lambda: [F.left(F.concat(s, F.lit("yz")), F.lit(2))], "right": lambda: [F.right(F.concat(s, F.lit("yz")), F.lit(2))],
-        "reverse": lambda: [F.reverse(F.concat(s, F.lit("yz")))], "repeat": lambda: [F.repeat(s, 2)],
-        "lpad": lambda: [F.lpad(s, 3, "*")], "rpad": lambda: [F.rpad(s, 3, "*")], "initcap": lambda: [F.initcap(F.concat(s, F.lit("b c")))],
-        "instr": lambda: [F.instr(F.concat(s, F.lit("yz")), "y")], "locate": lambda: [F.locate("y", F.concat(s, F.lit("yz")))],
-        "position": lambda: [F.position(F.lit("y"), F.concat(s, F.lit("yz")))],
-        "startswith": lambda: [F.startswith(s, F.lit("x"))], "endswith": lambda: [F.endswith(s, F.lit("x"))],
-        "contains": lambda: [F.contains(s, F.lit("x"))], "ascii": lambda: [F.ascii(s)], "md5": lambda: [F.md5(s)],
-        "translate": lambda: [F.translate(s, "xy", "ab")], "regexp_replace": lambda: [F.regexp_replace(s, "x", "q")],
-        "replace": lambda: [F.replace(s, F.lit("x"), F.lit("q"))], "split": lambda: [F.split(F.concat(s, F.lit(",k")), ",")],
-        "like": lambda: [F.like(s, F.lit("x%"))], "rlike": lambda: [F.rlike(s, F.lit("^x"))],
-        "hex": lambda: [F.hex(a)], "bin": lambda: [F.bin(a)], "shiftleft": lambda: [F.shiftleft(a, 1)],
-        "bitwise_not": lambda: [F.bitwise_not(a)], "bitwiseNOT": lambda: [F.bitwiseNOT(a)],
-        "array": lambda: [F.array(a, b)], "size": lambda: [F.size(F.array(a, b))], "array_contains": lambda: [F.array_contains(F.array(a, b), 1)],
-        "element_at": lambda: [F.element_at(F.array(a, b), 1)], "lit": lambda: [F.lit(7), F.lit("q"), F.lit(None)],
-        "expr": lambda: [F.expr("a + b")], "equal_null": lambda: [F.equal_null(a, b)],
-        "to_date": lambda: [F.to_date(F.lit("2024-03-05"))], "year": lambda: [F.year(F.to_date(F.lit("2024-03-05")))],
-        "month": lambda: [F.month(F.to_date(F.lit("2024-03-05")))], "dayofmonth": lambda: [F.dayofmonth(F.to_date(F.lit("2024-03-05")))],
-        "date_add": lambda: [F.date_add(F.to_date(F.lit("2024-03-05")), 2)], "date_sub": lambda: [F.date_sub(F.to_date(F.lit("2024-03-05")), 2)],
-        "datediff": lambda: [F.datediff(F.to_date(F.lit("2024-03-05")), F.to_date(F.lit("2024-03-01")))],
-        "last_day": lambda: [F.last_day(F.to_date(F.lit("2024-03-05")))], "quarter": lambda: [F.quarter(F.to_date(F.lit("2024-03-05")))],
-        "dayofweek": lambda: [F.dayofweek(F.to_date(F.lit("2024-03-05")))], "dayofyear": lambda: [F.dayofyear(F.to_date(F.lit("2024-03-05")))],
-        "weekofyear": lambda: [F.weekofyear(F.to_date(F.lit("2024-03-05")))],
-        "add_months": lambda: [F.add_months(F.to_date(F.lit("2024-03-05")), 2)],
-        "date_format": lambda: [F.date_format(F.to_date(F.lit("2024-03-05")), "yyyy-MM-dd")],
-        "cast": lambda: [a.cast("string"), s.cast("string"), a.cast("double")],
-    }
-    AGG = {
-        "count": lambda: [F.count(a)], "sum": lambda: [F.sum(a)], "min": lambda: [F.min(a)], "max": lambda: [F.max(a)],
-        "avg": lambda: [F.avg(a)], "mean": lambda: [F.mean(a)], "count_distinct": lambda: [F.count_distinct(a)],
-        "countDistinct": lambda: [F.countDistinct(a)], "sum_distinct": lambda: [F.sum_distinct(a)],
-        "bool_and": lambda: [F.bool_and(a > b)], "bool_or": lambda: [F.bool_or(a > b)], "every": lambda: [F.every(a > b)],
-        "any_value": lambda: [F.any_value(F.lit(1))], "max_by": lambda: [F.max_by(s, b)], "min_by": lambda: [F.min_by(s, b)],
-        "stddev": lambda: [F.stddev(a)], "variance": lambda: [F.variance(a)], "count_if": lambda: [F.count_if(a > b)],
-        "median": lambda: [F.median(a)], "corr": lambda: [F.corr(a, b)],
-    }
-    return S, AGG
+def call_columns(call, K) -> list:
+    """table columns a call touches (so that each statement carries only the columns it needs)"""
+    used = ["id"]
+    names = set(K.COLS)
+    def scan(a):
+        if "c" in a and a["c"] in names and a["c"] not in used:
+            used.append(a["c"])
+        if "e" in a:
+            for m in re.findall(r"'(\w+)'", a["e"]):
+                if m in names and m not in used:
+                    used.append(m)
+    for a in call["args"]:
+        scan(a)
+    for a in call["kwargs"].values():
+        scan(a)
+    if call["mode"] == "agg" and len(used) == 1:
+        used.append("i")
+    return used
+
+
+def run_calls(sess, conn, F, calls, exported):
+    from checks import c17_cases as K
+    out = []
+    types = dict(K.SCHEMA)
+    for call in calls:
+        fn = call["fn"]
+        if fn != "Column.getItem" and fn not in exported:
+            continue
+        ent = {"id": call["id"], "fn": fn, "mode": call["mode"]}
+        start = len(conn.log)
+        try:
+            cols = call_columns(call, K)
+            idx = [K.COLS.index(c) for c in cols]
+            rows = [tuple(r[k] for k in idx) for r in K.ROWS]
+            df = sess.createDataFrame(rows, ", ".join(f"{c} {types[c]}" for c in cols))
+            col = K.build_call(call, F)
+            if call["mode"] == "row":
+                q = df.select("id", col)
+                ent["tree"] = q.expression.sql(dialect="spark")
+                got = sorted(q.collect(), key=lambda r: r[0])
+                ent["values"] = [K.canon(r[1]) for r in got]
+                ent["name"] = list(got[0].__fields__)[1] if got else None
+            else:
+                vals = []
+                for cond in (F.col("id") <= 5, F.col("id") == 6):
+                    q = df.where(cond).agg(col)
+                    ent["tree"] = q.expression.sql(dialect="spark")
+                    got = q.collect()
+                    vals.append(K.canon(got[0][0]))
+                    ent["name"] = list(got[0].__fields__)[0]
+                ent["values"] = vals
+            ent["exc"] = None
+        except Exception as ex:  # noqa
+            ent.update({"values": None, "name": None, "exc": type(ex).__name__ + ":" + str(ex)[:200]})
+        ent["statements"] = [{k: st.get(k) for k in ("sql", "parse", "fixed_point", "error", "rerendered")} for st in conn.log[start:]]
+        out.append(ent)
+    return out
 
 
 # ------------------------------------------------------------------------------------------------
@@ -501,6 +504,12 @@ def run(engine: str, req: dict) -> dict:
         ("distinct-Upper-alias", lambda df: df.select(F.col("s").alias("S")).distinct()),
         ("agg-shortcut-name", lambda df: df.groupBy("s").max("a").orderBy("s")),
         ("agg-shortcut-name-count", lambda df: df.groupBy().count()),
+        ("agg-shortcut-names-sum-avg-min-mean", lambda df: df.groupBy("s").sum("a", "b").orderBy("s")),
+        ("agg-shortcut-name-avg", lambda df: df.groupBy("s").avg("b").orderBy("s")),
+        ("agg-shortcut-name-min", lambda df: df.groupBy("s").min("a").orderBy("s")),
+        ("agg-shortcut-name-mean", lambda df: df.groupBy("s").mean("a").orderBy("s")),
+        ("agg-dict-names", lambda df: df.groupBy("s").agg({"a": "sum", "b": "max"}).orderBy("s")),
+        ("agg-global-dict-names", lambda df: df.agg({"a": "min"})),
     ):
         ent = {"probe": name}
         try:
@@ -511,26 +520,10 @@ def run(engine: str, req: dict) -> dict:
         probes.append(ent)
     out["probes"] = probes
 
-    # ---- per-engine function sample
-    S, AGG = function_sample(F)
+    # ---- every function call template, on this engine
     exported = sorted(n for n in dir(F) if callable(getattr(F, n)) and hasattr(getattr(F, n), "unsupported_engines"))
     out["exported"] = exported
-    fres = []
-    for name in req.get("functions", []):
-        table = S if name in S else AGG if name in AGG else None
-        if table is None or name not in exported:
-            continue
-        ent = {"fn": name, "agg": name in AGG}
-        try:
-            df0 = sess.createDataFrame(tables["t1"], SCHEMA)
-            cols = [c.alias(f"r{i}") for i, c in enumerate(table[name]())]
-            df = df0.select(*cols) if name in AGG else df0.select("a", "b", "s", *cols)
-            ent["tree"] = df.expression.sql(dialect="spark")
-            ent.update(collect_case(df))
-        except Exception as ex:  # noqa
-            ent.update({"cols": None, "rows": None, "exc": "build:" + type(ex).__name__ + ":" + str(ex)[:200], "statements": []})
-        fres.append(ent)
-    out["functions"] = fres
+    out["functions"] = run_calls(sess, conn, F, req.get("calls", []), set(exported))
 
     # ---- dispatch
     from sqlframe.base.util import get_func_from_session
